@@ -49,6 +49,20 @@ class Ctx:
             self._eff = Effects(self)
         return self._eff
 
+    def soft(self, rule_fn, *args, **kw):
+        """Run one rule; when it cannot follow the code (AnalysisError) hand
+        back an *undecided* result instead of aborting the property: what the
+        other rules establish - a violation in particular - still stands, and
+        the report exits 2 only if nothing was violated."""
+        from .report import RuleResult
+        try:
+            return rule_fn(*args, **kw)
+        except AnalysisError as ex:
+            rr = RuleResult('?', getattr(rule_fn, '__name__', 'rule'),
+                            'UNDECIDED', 'rule could not decide')
+            rr.undecided = str(ex)
+            return rr
+
     def spec(self, name):
         if name not in self._spec:
             path = os.path.join(SPEC_DIR, name + '.json')
